@@ -100,6 +100,15 @@ const ITEMS: &[Item] = &[
     Item { name: "rect-sum-whole-2", src: r#"<rect x="0.7" y="0.1" width="2.3" height="0.2"/>"#, bbox: Some((0.7, 0.1, 3., 0.3)), defs: "" },
     Item { name: "g-scale-sum-whole", src: r#"<g transform="scale(0.3)"><rect wh="100 1"/></g>"#, bbox: Some((0., 0., 30., 0.3)), defs: "" },
     Item { name: "use-symbol-viewbox", src: r##"<use href="#dsv" x="20" y="20" width="10" height="10"/>"##, bbox: Some((20., 20., 30., 30.)), defs: r#"<symbol id="dsv" viewBox="0 0 100 100"><rect wh="100"/></symbol>"# },
+    // third review round
+    Item { name: "clip-object-units-quarter", src: r##"<rect xy="0 0" wh="100" clip-path="url(#dcobq)"/>"##, bbox: Some((0., 0., 50., 50.)), defs: r#"<clipPath id="dcobq" clipPathUnits="objectBoundingBox"><rect wh="0.5"/></clipPath>"# },
+    Item { name: "use-of-object-units-clipped", src: r##"<use href="#dobr" x="10"/>"##, bbox: Some((10., 0., 60., 50.)), defs: r##"<clipPath id="dcobq2" clipPathUnits="objectBoundingBox"><rect wh="0.5"/></clipPath><rect id="dobr" wh="100" clip-path="url(#dcobq2)"/>"## },
+    Item { name: "group-object-units-clipped-translated", src: r##"<g transform="translate(200)" clip-path="url(#dcobq)"><rect wh="40"/></g>"##, bbox: Some((200., 0., 220., 20.)), defs: r#"<clipPath id="dcobq" clipPathUnits="objectBoundingBox"><rect wh="0.5"/></clipPath>"# },
+    Item { name: "clipped-path-positioned", src: r##"<path xy="100" d="M0 0 h10 v10 h-10 z" clip-path="url(#dc10)"/>"##, bbox: Some((100., 100., 110., 110.)), defs: r#"<clipPath id="dc10"><rect wh="10"/></clipPath>"# },
+    Item { name: "clipped-polyline-offset", src: r##"<polyline dxy="100 0" points="0 0 20 20" clip-path="url(#dc10)"/>"##, bbox: Some((100., 0., 110., 10.)), defs: r#"<clipPath id="dc10"><rect wh="10"/></clipPath>"# },
+    Item { name: "clip-chain-empty", src: r##"<rect xy="-500 -500" wh="100" clip-path="url(#dce2)"/>"##, bbox: None, defs: r##"<clipPath id="dce1"><rect xy="50" wh="10"/></clipPath><clipPath id="dce2" clip-path="url(#dce1)"><rect wh="20"/></clipPath>"## },
+    Item { name: "group-clip-chain-empty", src: r##"<g clip-path="url(#dce2)"><rect xy="-500 -500" wh="100"/></g>"##, bbox: None, defs: r##"<clipPath id="dce1"><rect xy="50" wh="10"/></clipPath><clipPath id="dce2" clip-path="url(#dce1)"><rect wh="20"/></clipPath>"## },
+    Item { name: "clip-path-by-variable", src: r##"<var cvid="dc10"/><g clip-path="url(#$cvid)"><rect wh="100"/></g><rect xy="0 200" wh="100" clip-path="url(#$cvid)"/>"##, bbox: Some((0., 0., 10., 10.)), defs: r#"<clipPath id="dc10"><rect wh="10"/></clipPath>"# },
     Item { name: "path-subpaths-rel", src: r#"<path d="m0 0 h10 m40 50 h10 v10 z m-30 -30 l-40 0"/>"#, bbox: Some((-20., 0., 60., 60.)), defs: "" },
 ];
 
@@ -336,6 +345,10 @@ pub fn run(tier: Tier) -> i32 {
                     if l.len() == 3 && (bi + si + root) % 9 != (l[0] + l[2]) % 9 {
                         continue;
                     }
+                    // (the every-change tier takes a third of the triples)
+                    if l.len() == 3 && !deep && (l[0] + l[1] + l[2]) % 3 != 0 {
+                        continue;
+                    }
                     cases.push(Case { items: l.clone(), border: *border, scale: *scale, root });
                 }
             }
@@ -370,6 +383,32 @@ pub fn run(tier: Tier) -> i32 {
         }
     });
     rep.absorb("wrapped-root", st);
+    // whole documents with their expected viewBox (None: no viewBox at all), default border
+    let whole: Vec<(&str, &str, Option<&str>)> = vec![
+        ("config-in-waiting-group", "<svg><g><rect xy=\"#z|h\" wh=\"5\"/><config border=\"0\"/></g><rect id=\"z\" wh=\"10\"/></svg>", Some("0 0 15 10")),
+        ("config-in-waiting-if", "<svg><if test=\"1\"><rect xy=\"#z|h\" wh=\"5\"/><config border=\"2\"/></if><rect id=\"z\" wh=\"10\"/></svg>", Some("-2 -2 19 14")),
+        ("config-in-group-control", "<svg><g><rect wh=\"5\"/><config border=\"0\"/></g><rect id=\"z\" xy=\"5 0\" wh=\"10\"/></svg>", Some("0 0 15 10")),
+        ("empty-root-with-size", "<svg width=\"100\" height=\"50\"/>", None),
+        ("empty-root-with-size-end-tag", "<svg width=\"100\" height=\"50\"></svg>", None),
+        ("empty-root-plain", "<svg/>", None),
+    ];
+    let st = run_space(whole.len(), |i| {
+        let (name, doc, vb) = whole[i];
+        let out = run_str(doc, &Cfg::plain());
+        let got = match &out {
+            Outcome::Ok(o) => xmlref::parse_tree(o, Mode::Document).ok().and_then(|t| xmlref::root(&t).map(|r| r.attr("viewBox").map(|v| v.to_string()))),
+            _ => None,
+        };
+        let ok = got == Some(vb.map(|v| v.to_string()));
+        CaseResult {
+            case_hash: hash64(&doc),
+            nontrivial: ok,
+            outcome_hash: hash64(&format!("{out:?}")),
+            executions: 1,
+            violation: if ok { None } else { Some(Violation { clause: "viewBox".into(), signature: format!("C08/whole-document/{name}"), case: json!({"input": doc, "wrapped": true}), detail: format!("{doc}\nexpected viewBox {vb:?}, observed {got:?}") }) },
+        }
+    });
+    rep.absorb("whole-documents", st);
     rep.assume("item boxes are the generator's knowledge of absolute geometry (the per-element geometry itself is checked by C09/C11/C12/C13)");
     rep.finish()
 }
